@@ -458,7 +458,7 @@ class SR:
 
     def inv(self):
         if not self.n:
-            raise ZeroDivisionError("symbolic division by exact zero")
+            return undefined()
         c, g, p = P.p_primitive(self.n)
         d = {}
         for at, e in g:
@@ -481,7 +481,7 @@ class SR:
         if not o.d and P.p_is_const(o.n):
             c = P.p_const_value(o.n)
             if c == 0:
-                raise ZeroDivisionError("division by constant zero")
+                return undefined()       # numpy: inf/nan with a warning, no exception
             return self * SR.const(Fraction(1) / c)
         return self * o.inv()
 
@@ -998,6 +998,13 @@ def var(name, positive=False, nonneg=False, integer=False) -> SR:
         REG.add_axiom(a.z > 0)
     elif nonneg:
         REG.add_axiom(a.z >= 0)
+    return SR.atom(a.idx)
+
+
+def undefined() -> SR:
+    """x/0: an unconstrained symbol (nothing can be proved about it; evaluates to nan)"""
+    a = REG.new_atom(f"undef!{len(REG.atoms)}", "undef", fe=lambda env: float("nan"))
+    REG.uninterpreted += 1
     return SR.atom(a.idx)
 
 
